@@ -88,7 +88,8 @@ Receive(s, sid, pk, acc) ==
                                              ELSE "unknown_message_received", sid, [got |-> p.id, expectedIndex |-> n])>> ELSE <<>>)
                     \o (IF ~p.intact THEN <<V("C01", "payload_bytes_differ", sid, p.id)>> ELSE <<>>)
                     \o (IF ok /\ s.sent[n].bin # p.bin THEN <<V("C01", "kind_changed", sid, p.id)>> ELSE <<>>)
-                    \o (IF s.closeSeen THEN <<V("C12", "data_after_close_packet", sid, p.id)>> ELSE <<>>)
+                    \* (a client that switched with a poll still outstanding is handed the discarded transport's close packet on it)
+                    \o (IF s.closeSeen /\ ~s.sloppy THEN <<V("C12", "data_after_close_packet", sid, p.id)>> ELSE <<>>)
                   \* resynchronise after a loss so that it is reported once
                   idx == IF ok THEN n ELSE IF \E i \in 1..Len(s.sent) : s.sent[i].id = p.id
                                            THEN CHOOSE i \in 1..Len(s.sent) : s.sent[i].id = p.id ELSE s.nrcv
@@ -234,6 +235,8 @@ Step ==
                  \o (IF s.nupg >= 1 THEN <<V("C08", "upgraded_more_than_once", e.sid, "")>> ELSE <<>>)
                  \o (IF ~\E c \in DOMAIN Cn : Cn[c].sid = e.sid /\ Cn[c].role = "cand" /\ Cn[c].upgradeSent
                      THEN <<V("C08", "upgrade_without_upgrade_packet_on_own_candidate", e.sid, "")>> ELSE <<>>)
+                 \* the switch is made only for a candidate whose probe ping the server has answered (upgrading event of this attempt)
+                 \o (IF ~s.upgrading THEN <<V("C08", "upgrade_without_answered_probe", e.sid, "")>> ELSE <<>>)
             /\ UNCHANGED <<cfg, Rq>>
        [] e.e = "sock.close" /\ known ->
             LET need == ReasonCause(e.reason)
@@ -403,7 +406,10 @@ Step ==
                 sloppyNow == e.pk.ty = "upgrade" /\ live /\ (~c.ponged \/ s0.pollOut # 0)
                 ns == [s0 EXCEPT !.sloppy = s0.sloppy \/ sloppyNow,
                                  !.sub = IF elig THEN Append(s0.sub, e.pk.id) ELSE s0.sub,
-                                 !.may = IF live /\ c.role = "main" /\ ~s0.closed /\ e.pk.ty = "message" THEN s0.may \cup {e.pk.id} ELSE s0.may,
+                                 \* (a client that has sent its upgrade packet uses the new transport at once: those messages belong to
+                                 \*  the session as soon as the switch is made)
+                                 !.may = IF live /\ (c.role = "main" \/ (c.role = "cand" /\ c.upgradeSent)) /\ ~s0.closed /\ e.pk.ty = "message"
+                                         THEN s0.may \cup {e.pk.id} ELSE s0.may,
                                  !.causes = s0.causes \cup (IF e.pk.ty = "garbage" THEN {"parse", "error"} ELSE {})
                                                       \cup (IF e.pk.ty = "close" THEN {"peer"} ELSE {})]
             IN /\ Cn' = Put(Cn, e.cid, [c EXCEPT !.upgradeSent = c.upgradeSent \/ e.pk.ty = "upgrade", !.probed = c.probed \/ (e.pk.ty = "ping" /\ e.pk.d = "probe")])
@@ -420,7 +426,8 @@ Step ==
        [] e.e = "cli.ws.closed" ->
             /\ Cn' = Put(Cn, e.cid, [Cn[e.cid] EXCEPT !.closed = TRUE, !.role = IF Cn[e.cid].role = "cand" THEN "dead" ELSE Cn[e.cid].role])
             /\ S' = IF Cn[e.cid].role = "main" /\ Has(SS, Cn[e.cid].sid) THEN Put(SS, Cn[e.cid].sid, [SS[Cn[e.cid].sid] EXCEPT !.closeSeen = TRUE])
-                    ELSE IF Cn[e.cid].role = "cand" /\ Has(SS, Cn[e.cid].sid) THEN Put(SS, Cn[e.cid].sid, [SS[Cn[e.cid].sid] EXCEPT !.noopDue = Off])
+                    ELSE IF Cn[e.cid].role = "cand" /\ Has(SS, Cn[e.cid].sid) THEN Put(SS, Cn[e.cid].sid, [SS[Cn[e.cid].sid] EXCEPT !.noopDue = IF Cn[e.cid].ponged THEN Off ELSE @,
+                                                                       !.upgrading = IF Cn[e.cid].ponged \/ Cn[e.cid].probed THEN FALSE ELSE @])
                     ELSE SS
             /\ viol' = viol \o tv /\ UNCHANGED <<cfg, Rq>>
 
